@@ -397,6 +397,13 @@ func scenarios(tier string) []scenario {
 		fanScenario(fanCfg{name: "F-stalled cap=1 msgs=3 A-never-reads", cap_: 1, nMsg: 3, aReads: false, cycles: 1}),
 		lower(fanScenario(fanCfg{name: "F-churn cap=1 msgs=2 two attachments", cap_: 1, nMsg: 2, aReads: true, cycles: 2})),
 	}
+	if tier != "thorough" {
+		// three messages around one attach/detach, non-preemptive schedules only (free choices at every blocking point):
+		// cheap, and enough to expose a gap in what a device sees while it is being removed
+		sc := fanScenario(fanCfg{name: "F-direct cap=1 msgs=3 A-reads (bound 0)", cap_: 1, nMsg: 3, aReads: true, cycles: 1})
+		sc.dBound = -2
+		s = append(s, sc)
+	}
 	if tier == "thorough" {
 		s = append(s,
 			routScenario(2, 2, 3),
@@ -474,6 +481,9 @@ func main() {
 		}
 		outcomes := map[string]bool{}
 		b := *bound + sc.dBound
+		if b < 0 {
+			b = 0
+		}
 		rep := vsched.Explore(sc.run, vsched.ExploreOpts{Bound: b, Shard: *shard, NShards: *nshards, Deadline: time.Now().Add(*budget), Prune: os.Getenv("NOPRUNE") == "",
 			Check: sc.check,
 			Outcome: func(x *vsched.Execution) string {
